@@ -239,6 +239,7 @@ func TestSeveralCoreHandlers(t *testing.T) {
 						for i := 0; i < 8; i++ {
 							runtime.Gosched() // let already started application handlers get ahead, if there are any
 						}
+						time.Sleep(300 * time.Microsecond) // (also on a busy machine)
 					})
 				}
 				start := world.Stamp()
